@@ -35,12 +35,14 @@
 EXTENDS Naturals, Sequences, FiniteSets, TLC
 
 CONSTANTS
-    Profile,     \* "quick" | "thorough" | "sim": which atom / signature / type sets are enumerated
+    Profile,     \* "tiny" | "small" | "corr" | "full": which atom / signature / type sets are enumerated
     MaxLines,    \* lines in the body
     MaxIfs,      \* if/elif lines in the body
     MaxDepth,    \* maximal indentation of a line (0 = function level)
     MaxAtoms,    \* primitive conditions in the whole body
-    Bug          \* "none"; other values switch a plausible bug on in the Impl model (sensitivity)
+    MaxCondAtoms,\* primitive conditions in one condition (1 or 2)
+    Bug,         \* "none"; other values switch a plausible bug on in the Impl model (sensitivity)
+    Fixed        \* the repairs (see Repairs) that the code under test contains; {} on the current tree
 
 ToSet(s) == {s[i] : i \in 1..Len(s)}
 Vars == {"a", "b"}
@@ -65,13 +67,13 @@ AtomsOf(c) ==
     ELSE IF c.k = "not" THEN AtomsOf(c.c)
     ELSE IF c.k \in {"and", "or"} THEN UNION {AtomsOf(c.cs[i]) : i \in 1..Len(c.cs)}
     ELSE {c}
-RECURSIVE NAtoms(_)
+RECURSIVE NAtoms(_), NAtomsFrom(_, _)
 NAtoms(c) ==
     IF c.k = "none" THEN 0
     ELSE IF c.k = "not" THEN NAtoms(c.c)
-    ELSE IF c.k \in {"and", "or"} THEN
-        LET RECURSIVE S(_) S(i) == IF i > Len(c.cs) THEN 0 ELSE NAtoms(c.cs[i]) + S(i + 1) IN S(1)
+    ELSE IF c.k \in {"and", "or"} THEN NAtomsFrom(c.cs, 1)
     ELSE 1
+NAtomsFrom(cs, i) == IF i > Len(cs) THEN 0 ELSE NAtoms(cs[i]) + NAtomsFrom(cs, i + 1)
 
 BodyAtoms(lines) == UNION {AtomsOf(lines[i].c) : i \in 1..Len(lines)}
 RECURSIVE BodyNAtoms(_, _)
@@ -96,8 +98,9 @@ CanAppend(lines, ln) ==
 Complete(lines) == lines # << >> /\ ~IsHeader(lines[Len(lines)])
 
 \* the tree: statements [k, s (line number), c, t (then block), e (else block)]
-BodyEnd(L, i, hi) ==      \* last line of the block opened by the header on line i
-    LET RECURSIVE F(_) F(j) == IF j < hi /\ L[j + 1].ind > L[i].ind THEN F(j + 1) ELSE j IN F(i)
+RECURSIVE BodyEndFrom(_, _, _, _)
+BodyEndFrom(L, i, hi, j) == IF j < hi /\ L[j + 1].ind > L[i].ind THEN BodyEndFrom(L, i, hi, j + 1) ELSE j
+BodyEnd(L, i, hi) == BodyEndFrom(L, i, hi, i)     \* last line of the block opened by the header on line i
 RECURSIVE ChainEnd(_, _, _)
 ChainEnd(L, lo, hi) ==    \* last line of the if/elif/else chain whose first header is on line lo
     LET be == BodyEnd(L, lo, hi) IN
@@ -263,8 +266,15 @@ RefObs(c, env) ==
 (***************************************************************************)
 (* Impl: pyanalyze                                                         *)
 (***************************************************************************)
-\* Flags: repairs of known deviations (all FALSE = the code as it is)
-NoFix == [carry |-> FALSE, exact |-> FALSE, ell |-> FALSE]
+\* F: the set of repairs of known deviations switched on in the model (Fixed = the code as it is)
+\*   "carry"   narrowing is carried past an `if` statement
+\*   "exact"   the positive branch of a partial match keeps exactly the matching members
+\*   "keepany" a matching `Any` stays `Any` instead of becoming the tested type
+\*   "ell"     the type of a parameter left at its default `...` is its annotation
+\*   "boolop"  an and/or operand that decides the condition after partially matching operands
+\*             does not discard the members those operands had set aside
+Repairs == {"carry", "exact", "keepany", "ell", "boolop"}
+NoFix == Fixed
 
 \* Signature.bind_arguments (signature.py:820-1051), restricted to two parameters: the position
 \* stored for each parameter.  pi = positional_index before the parameter.
@@ -309,7 +319,7 @@ ImplParamType(c, v, F) ==
     IF Param(c, v).kind \in {"va", "vk"} THEN {"Any"}     \* a tuple / dict value; never tested (generator)
     ELSE IF ExplicitV(c, v) THEN ToSet(ArgT(c, v))
     ELSE IF ViaStar(c, v) \/ ViaDStar(c, v) THEN {"Any"}
-    ELSE IF Param(c, v).dflt = "ell" THEN (IF F.ell THEN AnnotAtoms ELSE {"Ell"})
+    ELSE IF Param(c, v).dflt = "ell" THEN (IF "ell" \in F THEN AnnotAtoms ELSE {"Ell"})
     ELSE {DefaultAtom(v)}
 
 \* Value.can_assign on the atoms: KnownValue for the literals (and None, Ellipsis), TypedValue for
@@ -328,13 +338,13 @@ ImplAssign(tt, m, excl) == \E t \in tt : ImplAssignAtom(t, m, excl)      \* Mult
 ImplOverlap(tt, m) == m = "Any" \/ \E t \in tt : PyType(t) = PyType(m)
 \* constrain_value(val, IsAssignablePredicate(typ, positive_only=False)) with positive=True
 \* (predicates.py:59-69), applied to every member of val (stacked_scopes.py:1584)
-ImplConstrainMember(tt, m) ==
+ImplConstrainMember(tt, m, F) ==
     IF ~ImplOverlap(tt, m) THEN {}
-    ELSE IF ImplAssign(tt, m, FALSE) THEN (IF m = "Any" THEN tt ELSE {m})
-    ELSE tt
+    ELSE IF ImplAssign(tt, m, FALSE)
+         THEN (IF m = "Any" /\ "keepany" \notin F THEN tt ELSE {m})   \* is_universally_assignable -> pattern
+    ELSE tt                                                          \* overlapping, not assignable -> pattern
 ImplConstrain(tt, val, matched, F) ==
-    IF F.exact THEN UNION {(IF m = "Any" THEN tt ELSE {m}) : m \in matched}
-    ELSE UNION {ImplConstrainMember(tt, m) : m \in val}
+    UNION {ImplConstrainMember(tt, m, F) : m \in (IF "exact" \in F THEN matched ELSE val)}
 
 \* optional variable maps (ConditionReturn.left_varmap / right_varmap)
 None == [some |-> FALSE, m |-> << >>]
@@ -381,20 +391,27 @@ ImplBoolOp(c, env, cs, i, isAnd, vars, narrowed, remaining, F) ==
                   ELSE [l |-> Unite(remaining), r |-> Some(narrowed)])
     ELSE LET res == ImplCond(c, env, vars, cs[i], F) IN
          IF isAnd THEN
-            IF ~res.l.some THEN [l |-> None, r |-> res.r]                            \* :532-537
+            IF ~res.l.some THEN                                                      \* :532-537
+                [l |-> None,
+                 r |-> IF "boolop" \in F /\ remaining # << >> /\ res.r.some
+                       THEN Unite(Append(remaining, Merge(narrowed, res.r.m))) ELSE res.r]
             ELSE ImplBoolOp(c, env, cs, i + 1, isAnd, Merge(vars, res.l.m), Merge(narrowed, res.l.m),
                             IF res.r.some THEN Append(remaining, res.r.m) ELSE remaining, F)   \* :538-550
          ELSE
             IF ~res.l.some THEN                                                      \* :552-557
                 ImplBoolOp(c, env, cs, i + 1, isAnd, Merge(vars, res.r.m), Merge(narrowed, res.r.m), remaining, F)
-            ELSE IF ~res.r.some THEN [l |-> res.l, r |-> None]                       \* :558-563
+            ELSE IF ~res.r.some THEN                                                 \* :558-563
+                [l |-> IF "boolop" \in F /\ remaining # << >>
+                       THEN Unite(Append(remaining, Merge(narrowed, res.l.m))) ELSE res.l,
+                 r |-> None]
             ELSE ImplBoolOp(c, env, cs, i + 1, isAnd, Merge(vars, res.r.m), Merge(narrowed, res.r.m),
                             Append(remaining, res.l.m), F)                           \* :564-570
 
 \* EvalReturn as a sequence: <<"none">> = None, <<x>> = a Value, longer = CombinedReturn.children.
 \* Statement results: [rets, errs (in emission order), ft (variables of the executions that fall
 \* through, used only by the `carry` repair)]
-NonNone(rets) == SelectSeq(rets, LAMBDA x : x # "none")
+IsNotNone(x) == x # "none"
+NonNone(rets) == SelectSeq(rets, IsNotNone)
 JoinFt(f, g) == IF ~f.some THEN g ELSE IF ~g.some THEN f
                 ELSE Some([x \in Vars |-> f.m[x] \cup g.m[x]])
 RECURSIVE ImplBlock(_, _, _, _, _, _, _), ImplStmt(_, _, _, _, _)
@@ -415,7 +432,7 @@ ImplStmt(c, env, vars, s, F) ==
 ImplBlock(c, env, vars, block, i, possible, F) ==
     IF i > Len(block) THEN [rets |-> possible \o << "none" >>, errs |-> << >>, ft |-> Some(vars)]   \* :658
     ELSE LET r == ImplStmt(c, env, vars, block[i], F)
-             nvars == IF F.carry /\ r.ft.some THEN r.ft.m ELSE vars
+             nvars == IF "carry" \in F /\ r.ft.some THEN r.ft.m ELSE vars
          IN IF r.rets = << "none" >> THEN                                                \* :647
                 LET rest == ImplBlock(c, env, nvars, block, i + 1, possible, F)
                 IN [rets |-> rest.rets, errs |-> r.errs \o rest.errs, ft |-> rest.ft]
@@ -454,29 +471,39 @@ TwoUnionVarsTested(c) == UnionVars(c) = Vars /\ TypeVarsTested(c.lines) = Vars
 \*  union-positive-narrowing-leaks-pattern  in the positive branch of a partial match the variable
 \*        becomes constrain_value(whole value) -- non-matching members are replaced by the tested
 \*        type instead of being dropped (:449)
+\*  any-narrowed-to-tested-type  after is_of_type(x, T, exclude_any=False) matched an `Any`, x is T,
+\*        so that a following strict is_of_type(x, T) / comparison sees T and not `Any` (:455)
+\*  boolop-deciding-operand-drops-members  `x and y` where x matches some members and y is false for
+\*        the members x let through: the else branch is evaluated with y's narrowing only, the
+\*        members x had set aside are lost (dually `x or y` with y true: the then branch) (:532-537,
+\*        :558-563)
 \*  two-union-arguments-correlation-lost  variable maps are per variable: with two union-typed
-\*        arguments both tested, combinations that no execution has are evaluated
-\* In every class the implementation must still over-approximate the specification (Sub).
-ClassFrom(c, env, F0) ==
-    LET R == RefObs(c, env)
-        I(F) == ImplObsF(c, env, F)
-    IN IF I(F0) = R THEN {}
-       ELSE IF ~Sub(R, I(F0)) THEN {"viol"}
-       ELSE IF I([F0 EXCEPT !.carry = TRUE]) = R THEN {"union-narrowing-not-carried-past-if"}
-       ELSE IF I([F0 EXCEPT !.exact = TRUE]) = R THEN {"union-positive-narrowing-leaks-pattern"}
-       ELSE IF I([F0 EXCEPT !.carry = TRUE, !.exact = TRUE]) = R
-            THEN {"union-narrowing-not-carried-past-if", "union-positive-narrowing-leaks-pattern"}
-       ELSE IF TwoUnionVarsTested(c) THEN {"two-union-arguments-correlation-lost"}
-       ELSE {"viol"}
+\*        arguments both tested, combinations that no execution has are evaluated; the
+\*        implementation must still over-approximate once the other repairs are applied
+ClassName(f) == CASE f = "carry" -> "union-narrowing-not-carried-past-if"
+                  [] f = "exact" -> "union-positive-narrowing-leaks-pattern"
+                  [] f = "keepany" -> "any-narrowed-to-tested-type"
+                  [] f = "ell" -> "ellipsis-default-not-annotation"
+                  [] f = "boolop" -> "boolop-deciding-operand-drops-members"
 Class(c, env) ==
-    IF ImplObs(c, env) = RefObs(c, env) THEN {}
-    ELSE IF UsesEll(c) /\ ImplObsF(c, env, [NoFix EXCEPT !.ell = TRUE]) # ImplObs(c, env)
-         THEN {"ellipsis-default-not-annotation"} \cup ClassFrom(c, env, [NoFix EXCEPT !.ell = TRUE])
-    ELSE ClassFrom(c, env, NoFix)
+    LET R == RefObs(c, env)
+        Fixing == {S \in SUBSET (Repairs \ Fixed) : ImplObsF(c, env, S \cup Fixed) = R}
+    IN IF ImplObsF(c, env, NoFix) = R THEN {}
+       ELSE IF Fixing # {}
+            THEN LET S == CHOOSE S \in Fixing : \A S2 \in Fixing : Cardinality(S) <= Cardinality(S2)
+                 IN {ClassName(f) : f \in S}
+       ELSE IF TwoUnionVarsTested(c) /\ Sub(R, ImplObsF(c, env, Repairs))
+            THEN {"two-union-arguments-correlation-lost"}
+       ELSE {"viol"}
 Dev_EllipsisDefault(c, env) == "ellipsis-default-not-annotation" \in Class(c, env)
 Dev_NarrowingNotCarried(c, env) == "union-narrowing-not-carried-past-if" \in Class(c, env)
 Dev_PositiveNarrowingLeaks(c, env) == "union-positive-narrowing-leaks-pattern" \in Class(c, env)
+Dev_AnyNarrowed(c, env) == "any-narrowed-to-tested-type" \in Class(c, env)
+Dev_BoolOpDropsMembers(c, env) == "boolop-deciding-operand-drops-members" \in Class(c, env)
 Dev_CorrelationLost(c, env) == "two-union-arguments-correlation-lost" \in Class(c, env)
+\* the classes in which the implementation may report less than the specification
+MayUnderApproximate == {"ellipsis-default-not-annotation", "any-narrowed-to-tested-type",
+                        "boolop-deciding-operand-drops-members"}
 
 \* argument kinds: the three documented predicates (DEFAULT and UNKNOWN are indistinguishable)
 KindsAgree(c, posOf) ==
@@ -487,56 +514,91 @@ KindsAgree(c, posOf) ==
 (*                                                                         *)
 (* The bounds are the constants MaxLines / MaxIfs / MaxDepth / MaxAtoms    *)
 (* and the sets selected by Profile below.  Two families of cases:         *)
-(*  - kind probes: `if [not] is_xxx(v): return .. / return ..` under EVERY *)
-(*    signature x call shape (this is where the binder's positions are     *)
-(*    compared with the documented argument kinds);                        *)
+(*  - probes: `if [not] <p>: return .. / return ..` for every argument-    *)
+(*    kind primitive p under EVERY signature x call shape (this is where   *)
+(*    the binder's positions are compared with the documented argument     *)
+(*    kinds), and for every version / platform check;                      *)
 (*  - all other bodies under the signatures BodySigs x every call shape.   *)
 (* Dimensions a body cannot observe are collapsed to a canonical value     *)
 (* (no argument-kind primitive: no *args/**kwargs calls; an argument no    *)
 (* is_of_type / comparison tests has the canonical type).                  *)
 (***************************************************************************)
-Quick == Profile = "quick"
-TTs == IF Quick THEN { <<"int">>, <<"L1", "L2">> }
-       ELSE { <<"L1">>, <<"int">>, <<"str">>, <<"None">>, <<"L1", "L2">>, <<"int", "None">> }
-AtomsA == IF Quick
-          THEN {Cmp("a", "eq", "L1"), Oft("a", <<"int">>, TRUE), Oft("a", <<"int">>, FALSE), Oft("a", <<"L1", "L2">>, TRUE)}
-          ELSE {Cmp("a", op, lit) : op \in {"eq", "isnot"}, lit \in {"L1", "Lx", "None"}}
-               \cup {Cmp("a", "ne", "L1"), Cmp("a", "is", "None")}
-               \cup {Oft("a", tt, TRUE) : tt \in TTs} \cup {Oft("a", tt, FALSE) : tt \in {<<"int">>, <<"L1", "L2">>}}
-AtomsB == IF Quick THEN {Cmp("b", "eq", "Lx")}
-          ELSE {Cmp("b", "eq", "Lx"), Cmp("b", "ne", "Lx"), Oft("b", <<"str">>, TRUE), Oft("b", <<"str">>, FALSE)}
-KindAtoms == IF Quick THEN {KindAtom("prov", "b"), KindAtom("kw", "a")}
-             ELSE {KindAtom("prov", "b"), KindAtom("kw", "a"), KindAtom("pos", "b"), KindAtom("prov", "a")}
-EnvAtoms == IF Quick THEN {Ver("ge", <<3, 8>>), Plat("eq", "win32")}
-            ELSE {Ver("ge", <<3, 8>>), Ver("lt", <<3, 8>>), Ver("ge", <<3, 99>>), Plat("eq", "win32"), Plat("ne", "win32")}
+\* Profiles: "tiny" (quick tier), "small" (thorough tier), "corr" (two tested union arguments, few
+\* atoms, larger bodies), "full" (random simulation only: every primitive of the grammar)
+PickP(tiny, small, corr, full) ==
+    CASE Profile = "tiny" -> tiny [] Profile = "small" -> small [] Profile = "corr" -> corr [] Profile = "full" -> full
+AllTTs == { <<"L1">>, <<"Lx">>, <<"int">>, <<"str">>, <<"None">>, <<"L1", "L2">>, <<"int", "None">>, <<"L1", "None">> }
+AtomsA == PickP(
+    {Cmp("a", "eq", "L1"), Oft("a", <<"int">>, TRUE), Oft("a", <<"int">>, FALSE)},
+    {Cmp("a", "eq", "L1"), Oft("a", <<"int">>, TRUE), Oft("a", <<"int">>, FALSE), Oft("a", <<"L1", "L2">>, TRUE)},
+    {Cmp("a", "eq", "L1")},
+    {Cmp("a", op, lit) : op \in {"eq", "ne", "is", "isnot"}, lit \in {"L1", "L2", "Lx", "None"}}
+        \cup {Oft("a", tt, x) : tt \in AllTTs, x \in BOOLEAN})
+AtomsB == PickP(
+    {Cmp("b", "eq", "Lx")},
+    {Cmp("b", "eq", "Lx")},
+    {Cmp("b", "eq", "Lx")},
+    {Cmp("b", op, lit) : op \in {"eq", "ne", "is", "isnot"}, lit \in {"Lx", "L1", "None"}}
+        \cup {Oft("b", tt, x) : tt \in {<<"str">>, <<"Lx">>, <<"int", "None">>}, x \in BOOLEAN})
+AllKindAtoms == {KindAtom(f, v) : f \in {"prov", "pos", "kw"}, v \in Vars}
+KindAtoms == PickP({KindAtom("prov", "b")}, {KindAtom("prov", "b"), KindAtom("kw", "a")}, {}, AllKindAtoms)
+AllEnvAtoms == {Ver("ge", <<3, 8>>), Ver("lt", <<3, 8>>), Ver("ge", <<3, 99>>), Ver("lt", <<4>>),
+                Plat("eq", "win32"), Plat("ne", "win32"), Plat("eq", "linux"), Plat("ne", "linux")}
+EnvAtoms == PickP(
+    {},
+    {Ver("ge", <<3, 8>>), Plat("eq", "win32")},
+    {},
+    AllEnvAtoms)
 Atoms == AtomsA \cup AtomsB \cup KindAtoms \cup EnvAtoms
 Lits == Atoms \cup {Not(x) : x \in Atoms}
 \* second operands of two-operand conditions
-Lits2 == AtomsA \cup AtomsB \cup {KindAtom("prov", "b")} \cup (IF Quick THEN {} ELSE {Not(x) : x \in AtomsA \cup AtomsB})
+Lits2 == AtomsA \cup AtomsB \cup (KindAtoms \cap {KindAtom("prov", "b")})
 Pairs == {And2(x, y) : x \in Lits, y \in Lits2} \cup {Or2(x, y) : x \in Lits, y \in Lits2}
 Conds1 == Lits
 Conds2 == Pairs \cup {Not(p) : p \in Pairs}
-CondsUpTo(n) == IF n <= 0 THEN {} ELSE IF n = 1 THEN Conds1 ELSE Conds1 \cup Conds2
-\* every is_provided / is_positional / is_keyword primitive, plain and negated (kind probes)
-ProbeLits == LET ka == {KindAtom(f, v) : f \in {"prov", "pos", "kw"}, v \in Vars} IN ka \cup {Not(x) : x \in ka}
+\* random conditions for the simulation profile: up to three operands, one level of nesting
+RandLit(u) == LET x == RandomElement(Atoms) IN IF RandomElement(BOOLEAN) THEN x ELSE Not(x)
+RandBool(u) ==
+    LET kk == RandomElement({"and", "or"})
+        n == RandomElement({2, 2, 3})
+        inner == [k |-> RandomElement({"and", "or"}), cs |-> <<RandLit(u), RandLit(u + 1)>>]
+        ops == IF n = 2 THEN <<RandLit(u + 2), IF RandomElement(1..4) = 1 THEN inner ELSE RandLit(u + 3)>>
+               ELSE <<RandLit(u + 2), RandLit(u + 3), RandLit(u + 4)>>
+        b == [k |-> kk, cs |-> ops]
+    IN IF RandomElement(1..4) = 1 THEN Not(b) ELSE b
+RandCond(u) == IF RandomElement(1..3) = 1 THEN RandLit(u) ELSE RandBool(u)
+CondsUpTo(n, u) ==
+    IF Profile = "full" THEN {RandCond(u)}
+    ELSE IF n <= 0 THEN {} ELSE IF n = 1 \/ MaxCondAtoms = 1 THEN Conds1 ELSE Conds1 \cup Conds2
+\* every is_provided / is_positional / is_keyword primitive and every version / platform check,
+\* plain and negated (probes)
+KindProbeLits == AllKindAtoms \cup {Not(x) : x \in AllKindAtoms}
+ProbeLits == KindProbeLits \cup AllEnvAtoms \cup {Not(x) : x \in AllEnvAtoms}
+LeafKinds == PickP({"ret", "err"}, {"ret", "err", "pass"}, {"ret", "err"}, {"ret", "err", "pass"})
 
 ParamSpace == [kind : {"po", "pk", "ko", "va", "vk"}, dflt : {"req", "lit", "ell"}]
 KwsSpace == { << >>, <<"a">>, <<"b">>, <<"a", "b">>, <<"z">>, <<"a", "z">> }
 CallSpace == [npos : 0..2, kws : KwsSpace, star : BOOLEAN, dstar : BOOLEAN]
 P(kind, dflt) == [kind |-> kind, dflt |-> dflt]
 CanonSig == << P("pk", "req"), P("pk", "lit") >>
-BodySigs == IF Quick
-            THEN { CanonSig, << P("pk", "lit"), P("pk", "ell") >>, << P("pk", "req"), P("ko", "lit") >> }
-            ELSE { CanonSig, << P("pk", "lit"), P("pk", "ell") >>, << P("pk", "req"), P("ko", "lit") >>,
-                   << P("po", "lit"), P("pk", "lit") >>, << P("pk", "ell"), P("va", "req") >>,
-                   << P("pk", "lit"), P("vk", "req") >> }
-ArgTypesA == IF Quick
-             THEN { <<"L1">>, <<"int">>, <<"Any">>, <<"L1", "L2">>, <<"L1", "Lx">>, <<"Any", "L1">>, <<"L1", "int">> }
-             ELSE { <<"L1">>, <<"L2">>, <<"Lx">>, <<"None">>, <<"int">>, <<"str">>, <<"Any">>,
-                    <<"L1", "L2">>, <<"L1", "Lx">>, <<"L1", "None">>, <<"int", "str">>, <<"int", "None">>,
-                    <<"L1", "int">>, <<"Any", "L1">>, <<"Any", "int">>, <<"L1", "L2", "Lx">>, <<"Any", "L1", "Lx">> }
-ArgTypesB == IF Quick THEN { <<"Lx">>, <<"Lx", "Ly">>, <<"Any">> }
-             ELSE { <<"Lx">>, <<"str">>, <<"Any">>, <<"Lx", "Ly">>, <<"Lx", "L1">>, <<"Any", "Lx">> }
+EllSig == << P("pk", "lit"), P("pk", "ell") >>
+MoreSigs == { CanonSig, EllSig, << P("pk", "req"), P("ko", "lit") >>, << P("po", "lit"), P("pk", "lit") >>,
+              << P("pk", "ell"), P("va", "req") >>, << P("pk", "lit"), P("vk", "req") >> }
+BodySigs == PickP({CanonSig, EllSig}, {CanonSig, EllSig, << P("pk", "req"), P("ko", "lit") >>}, {CanonSig}, MoreSigs)
+ArgTypesA == PickP(
+    { <<"L1">>, <<"Any">>, <<"L1", "L2">>, <<"Any", "L1">> },
+    { <<"L1">>, <<"Any">>, <<"L1", "L2">>, <<"L1", "Lx">>, <<"Any", "L1">>, <<"L1", "int">> },
+    { <<"L1">>, <<"L1", "L2">> },
+    { <<"L1">>, <<"L2">>, <<"Lx">>, <<"None">>, <<"int">>, <<"str">>, <<"Any">>,
+      <<"L1", "L2">>, <<"L1", "Lx">>, <<"L1", "None">>, <<"int", "str">>, <<"int", "None">>,
+      <<"L1", "int">>, <<"Any", "L1">>, <<"Any", "int">>, <<"L1", "L2", "Lx">>, <<"Any", "L1", "Lx">>,
+      <<"L1", "int", "None">> })
+ArgTypesB == PickP(
+    { <<"Lx">>, <<"Lx", "Ly">> },
+    { <<"Lx">>, <<"Lx", "Ly">> },
+    { <<"Lx">>, <<"Lx", "Ly">> },
+    { <<"Lx">>, <<"str">>, <<"Any">>, <<"None">>, <<"Lx", "Ly">>, <<"Lx", "L1">>, <<"Any", "Lx">>, <<"str", "None">> })
+AnnChoices == PickP({TRUE}, BOOLEAN, {TRUE}, BOOLEAN)
 
 VARIABLES case, stage
 gvars == <<case, stage>>
@@ -555,7 +617,7 @@ Init == case = Blank /\ stage = "body"
 
 AddLeaf ==
     /\ stage = "body" /\ Len(case.lines) < MaxLines
-    /\ \E ind \in 0..MaxDepth, k \in {"ret", "err", "pass"} :
+    /\ \E ind \in 0..MaxDepth, k \in LeafKinds :
          LET ln == [ind |-> ind, k |-> k, c |-> NoCond] IN
          /\ CanAppend(case.lines, ln)
          /\ (k = "pass" => case.lines # << >> /\ IsHeader(case.lines[Len(case.lines)]))  \* pass only as a whole block
@@ -571,7 +633,7 @@ AddElse ==
 AddIf ==
     /\ stage = "body" /\ Len(case.lines) + 1 < MaxLines /\ NIfs(case.lines) < MaxIfs
     /\ \E ind \in 0..(MaxDepth - 1), k \in {"if", "elif"} :
-         \E cond \in CondsUpTo(MaxAtoms - BodyNAtoms(case.lines, 1)) :
+         \E cond \in CondsUpTo(MaxAtoms - BodyNAtoms(case.lines, 1), Len(case.lines)) :
             LET ln == [ind |-> ind, k |-> k, c |-> cond] IN
             /\ CanAppend(case.lines, ln)
             /\ case' = [case EXCEPT !.lines = Append(@, ln)]
@@ -583,7 +645,7 @@ StartProbe ==
     /\ stage' = "sig"
 EndBody ==
     /\ stage = "body" /\ Complete(case.lines) /\ NIfs(case.lines) >= 1 /\ ~IsProbe(case.lines)
-    /\ \E ann \in BOOLEAN : case' = [case EXCEPT !.ann = ann]
+    /\ \E ann \in AnnChoices : case' = [case EXCEPT !.ann = ann]
     /\ stage' = "sig"
 ChooseSig ==
     /\ stage = "sig"
@@ -591,7 +653,7 @@ ChooseSig ==
          LET sig == <<pa, pb>> IN
          /\ SigOK(sig)
          /\ (IsProbe(case.lines) \/ sig \in BodySigs)
-         /\ (KindVarsTested(case.lines) = {} => sig \in {CanonSig, << P("pk", "lit"), P("pk", "ell") >>})
+         /\ (KindVarsTested(case.lines) = {} => sig \in {CanonSig, EllSig})
          /\ case' = [case EXCEPT !.sig = sig]
     /\ stage' = "call"
 ChooseCall ==
@@ -619,12 +681,21 @@ Next == AddLeaf \/ AddElse \/ AddIf \/ StartProbe \/ EndBody \/ ChooseSig \/ Cho
 Done == stage = "done"
 \* the three argument-kind predicates computed from the binder's positions are the documented ones
 ArgumentKindsFollowSpec == Done => KindsAgree(case, [v \in Vars |-> ImplPos(case, v)])
-\* without union-typed parameters the evaluation is exactly the documented one
-ExactOnSingletons ==
-    (Done /\ UnionVars(case) = {} /\ ~UsesEll(case)) => ImplObs(case, ModelEnv) = RefObs(case, ModelEnv)
-\* in general: exact, or one of the named deviation classes (each of which over-approximates)
-EvalFollowsSpec == Done => "viol" \notin Class(case, ModelEnv)
+\* One judgement per case (evaluated once): the deviation classes and the two stronger statements
+Judge(c, env) ==
+    LET R == RefObs(c, env)
+        I == ImplObs(c, env)
+        cls == IF I = R THEN {} ELSE Class(c, env)
+    IN [cls |-> cls,
+        \* without union-typed parameters, `Any` arguments and `...` defaults the evaluation is exactly
+        \* the documented one: no deviation class applies
+        single |-> (UnionVars(c) = {} /\ ~UsesEll(c) /\ "Any" \notin ToSet(c.ta) \cup ToSet(c.tb)) => I = R,
+        \* everything the specification prescribes is reported (result members, errors), except in
+        \* the two classes that may under-approximate
+        over |-> Sub(R, I) \/ cls \cap MayUnderApproximate # {}]
+EvalFollowsSpec ==
+    Done => LET j == Judge(case, ModelEnv) IN "viol" \notin j.cls /\ j.single /\ j.over
 \* expected to be violated: the deviations are real (sensitivity of the specification)
 EvalFollowsSpecStrict == Done => ImplObs(case, ModelEnv) = RefObs(case, ModelEnv)
-EvalSoundStrict == Done => Sub(RefObs(case, ModelEnv), ImplObs(case, ModelEnv))
+OverApproximatesStrict == Done => Sub(RefObs(case, ModelEnv), ImplObs(case, ModelEnv))
 =============================================================================
